@@ -480,30 +480,64 @@ def exotic(doc, r, p=0.4):
 
     def conv(v, depth):
         if isinstance(v, dict):
-            d = {k: conv(x, depth + 1) for k, x in v.items()}
+            d = {(StrSub(k) if r.random() < p / 3 else k): conv(x, depth + 1) for k, x in v.items()}
             if r.random() < p:
-                kind = r.choice(["ordered", "user", "proxy"])
+                kind = r.choice(["ordered", "user", "proxy", "dict-subclass"])
                 if kind == "ordered":
                     return collections.OrderedDict(d)
                 if kind == "user":
                     return collections.UserDict(d)
+                if kind == "dict-subclass":
+                    return DictSub(d)
                 return types.MappingProxyType(d)
             return d
         if isinstance(v, list):
             l = [conv(x, depth + 1) for x in v]
             if r.random() < p:
-                kind = r.choice(["tuple", "userlist", "custom"])
+                kind = r.choice(["tuple", "userlist", "custom", "list-subclass"])
                 if kind == "tuple":
                     return tuple(l)
                 if kind == "userlist":
                     return collections.UserList(l)
+                if kind == "list-subclass":
+                    return ListSub(l)
                 return CustomSeq(l)
             return l
+        # scalars of subclasses of the built-in types (what enum members, numpy-free "tagged" strings etc. look like)
+        if r.random() < p / 2:
+            if isinstance(v, bool) or v is None:
+                return v
+            if isinstance(v, str):
+                return StrSub(v)
+            if isinstance(v, int):
+                return IntSub(v)
+            if isinstance(v, float):
+                return FloatSub(v)
         return v
     return conv(doc, 0)
 
 
 import collections.abc as _abc
+
+
+class StrSub(str):
+    __slots__ = ()
+
+
+class IntSub(int):
+    __slots__ = ()
+
+
+class FloatSub(float):
+    __slots__ = ()
+
+
+class DictSub(dict):
+    pass
+
+
+class ListSub(list):
+    pass
 
 
 class CustomSeq(_abc.Sequence):
